@@ -49,6 +49,12 @@ def letters():
             'cont': b'message_format = a\n  b\n  c\n', 'limits': b'datasource_message_max_length = 1m\nlog_message_max_length = 1m\n', 'overflow': b'log_message_max_length = 255\nmessage_format = ' + b'L' * 300 + b'%{cmdline}\nerror_logging = yes\n'}
     for k, val in opts.items():
         add('opt:' + k, b'[snoopy]\n' + val)
+    # literal segments around the data-source limit (message format) and around the fixed ident limit, in front of a tag
+    for d in (-1, 0, 1, 2):
+        add('lit:ds255%+d' % d, b'[snoopy]\ndatasource_message_max_length = 255\nmessage_format = ' + b'L' * (255 + d) + b'%{uid}\noutput = file:log\n')
+        add('lit:ds700%+d' % d, b'[snoopy]\ndatasource_message_max_length = 700\nmessage_format = ' + b'L' * (700 + d) + b'%{uid}tail\noutput = file:log\n')
+        add('lit:ident256%+d' % d, b'[snoopy]\nsyslog_ident = ' + b'I' * (256 + d) + b'%{uid}\noutput = devlog\n')
+        add('lit:path%+d' % d, b'[snoopy]\noutput = file:' + b'./' * ((4096 + d - 3) // 2) + b'x' * ((4096 + d - 3) % 2) + b'log%{uid}\n')
     add('cfg:absent', None)
     add('cfg:dir', 'DIR')
     add('cfg:garbage', bytes(range(1, 256)))
@@ -58,7 +64,10 @@ def letters():
 
 
 PRELUDES = {'plain': [], 'sigstate': ['sighandler 10', 'sighandler 13', 'sighandler 17'] + ['sigmask %d' % n for n in (1, 2, 3, 10, 12, 13, 14, 15, 17, 20, 21, 22)] + ['umask 027', 'openfd 0', 'openfd 1'],
-            'sigstate2': ['sighandler 1', 'sighandler 2', 'sighandler 14', 'sighandler 15', 'sigmask 13', 'umask 077']}
+            'sigstate2': ['sighandler 1', 'sighandler 2', 'sighandler 14', 'sighandler 15', 'sigmask 13', 'umask 077'],
+            # identities without passwd / group entries, real != effective, stdin on a pty: the lookup-miss paths of the identity data sources
+            'ids_unknown': ['stdin pty', 'setresgid 54321 54321 54321', 'setresuid 54321 54321 54321'],
+            'ids_mixed': ['stdin pty', 'setresgid 1 54321 0', 'setresuid 1 54321 0']}
 
 
 def digest_eq(a, b):
@@ -103,7 +112,10 @@ def run(ck):
         jobs = []
         for pn, pl in PRELUDES.items():
             for name, lines in L.items():
-                if pn != 'plain' and not name.startswith(('out:', 'opt:errlog', 'opt:overflow', 'ds:tty', 'ds:cwd', 'ds:login', 'ds:datetime', 'flt:exclude_spawns_of:zz')):
+                if pn.startswith('ids_'):
+                    if not name.startswith(('ds:', 'flt:', 'out:file', 'out:devlog')):
+                        continue
+                elif pn != 'plain' and not name.startswith(('out:', 'opt:errlog', 'opt:overflow', 'ds:tty', 'ds:cwd', 'ds:login', 'ds:datetime', 'flt:exclude_spawns_of:zz')):
                     continue
                 jobs.append((v['h_exec'], symfile, os.path.join(ck.workdir, '%s-%s-%d' % (vname, pn, len(jobs))), pl, '%s|%s' % (pn, name), lines, reps, heap))
         for name, r in pmap(run_letter, jobs):
